@@ -65,7 +65,7 @@ class Prop:
         "published its id (CountDownLatch: C14)",
     ]
     assumptions = [
-        "loop() is called once per EventLoop; task bodies terminate",
+        "task bodies terminate; loop() is entered again only by the owner thread of a plain loop after it has returned (quit_ is re-armed on the way out: the quit theorems speak about one run, a quit() stored between two runs is a request to the next one); an EventLoopThread calls loop() once",
         "one owner thread calls startLoop() and later destroys the EventLoopThread, not concurrently (the excluded case is the "
         "explicit disjunct EarlyDestroy of stuck_states, not silently assumed); clean_shutdown additionally assumes that user "
         "code does not quit the thread's loop (otherwise the owner's pointer may dangle — the caller's responsibility)",
